@@ -1776,3 +1776,55 @@ Proof.
   exists cover_sched, w'. split; [rewrite <- model_acc_is_cover; exact Hin|].
   intros ->. destruct w'; [reflexivity | discriminate].
 Qed.
+
+(* ================================================================ what an empty [graph_problems] says
+   For ANY site graph (the one of the current tree is Gen/Race_gen.v, checked in Gen/TablesOk_race.v): if
+   [graph_problems] finds nothing, then every access site is in a function that exactly one goroutine class
+   reaches, its field has a location class, and the model performs that (class, location, role) - hence, by
+   [performs_witness] and [race_free], in a schedule of the race-free model. *)
+Lemma flat_map_nil {A B} (f : A -> list B) l x : flat_map f l = [] -> In x l -> f x = [].
+Proof.
+  induction l as [|a l IH]; cbn [flat_map]; intros H Hin; [contradiction|].
+  apply app_eq_nil in H. destruct H as [Ha Hl]. destruct Hin as [<-|Hin]; auto.
+Qed.
+
+Lemma graph_ok_sites ds es ss cs : graph_problems ds es ss cs = [] ->
+  forall s, In s ss ->
+    exists g x, cm_get (s_fun s) (classes_of es) = [g] /\ resolve_field ds (s_type s) (s_field s) = Some x /\
+                performs g x (s_write s) = true.
+Proof.
+  unfold graph_problems. intros H s Hin.
+  apply app_eq_nil in H. destruct H as [_ H]. apply app_eq_nil in H. destruct H as [H _].
+  pose proof (flat_map_nil _ _ s H Hin) as Hs. unfold check_site in Hs.
+  destruct (cm_get (s_fun s) (classes_of es)) as [|g [|g' r]]; try discriminate.
+  destruct (resolve_field ds (s_type s) (s_field s)) as [x|]; try discriminate.
+  destruct (performs g x (s_write s)) eqn:Ep; try discriminate.
+  exists g, x. auto.
+Qed.
+
+Lemma graph_ok_sites_race_free ds es ss cs : graph_problems ds es ss cs = [] ->
+  forall s, In s ss ->
+    exists g x sched w',
+      cm_get (s_fun s) (classes_of es) = [g] /\ resolve_field ds (s_type s) (s_field s) = Some x /\
+      In (g, x, w') (acc_classes (trace (step repaired) init sched)) /\ (s_write s = true -> w' = true) /\
+      races (trace (step repaired) init sched) = [].
+Proof.
+  intros H s Hin. destruct (graph_ok_sites ds es ss cs H s Hin) as [g [x [Hc [Hr Hp]]]].
+  destruct (performs_witness g x (s_write s) Hp) as [sched [w' [Hacc Hw]]].
+  exists g, x, sched, w'. repeat split; auto. apply race_free.
+Qed.
+
+Lemma graph_ok_caps ds es ss cs : graph_problems ds es ss cs = [] ->
+  forall c, In c cs -> check_cap (classes_of es) c = [].
+Proof.
+  unfold graph_problems. intros H c Hin.
+  apply app_eq_nil in H. destruct H as [_ H]. apply app_eq_nil in H. destruct H as [_ H].
+  exact (flat_map_nil _ _ c H Hin).
+Qed.
+
+Lemma graph_ok_edges ds es ss cs : graph_problems ds es ss cs = [] ->
+  forall e, In e es -> check_edge (classes_of es) e = [].
+Proof.
+  unfold graph_problems. intros H e Hin.
+  apply app_eq_nil in H. destruct H as [H _]. exact (flat_map_nil _ _ e H Hin).
+Qed.
